@@ -119,6 +119,16 @@ def build(prog):
         fx = ev.loop_sum(ev.get(X, 0, i) * fc, i)
         fcc = ev.loop_concatenate(ev.get(C, 0, i), i)
         return (fc, fx, fcc), args
+    if fam == 'P15':  # in-place accumulation through views of the shared accumulator: transposed and diagonal terms of a sum
+        k = int(prog.get('k', 2))
+        X = arg('x', (n, m, k))
+        Y = arg('y', (n, k, m))
+        D = arg('d', (n, m))
+        Z = arg('z', (n, m, m))
+        f = ev.loop_sum(ev.Transpose(ev.get(X, 0, i), (1, 0)) + ev.get(Y, 0, i), i)
+        g = ev.loop_sum(ev.diagonalize(ev.get(D, 0, i)) + ev.get(Z, 0, i), i)
+        h = ev.loop_sum(ev.Transpose(ev.get(Z, 0, i), (1, 0)) * ev.get(Z, 0, i) + ev.diagonalize(ev.get(D, 0, i) * ev.get(D, 0, i)), i)
+        return (f, g, h), args
     if fam == 'P14':  # a body that raises at iteration k (data driven out-of-range index)
         X = arg('x', (n, m))
         sel = ev.Argument('sel', (c(n),), int)
@@ -143,7 +153,7 @@ def gen_prog(rng, families, small=False):
         prog['scalar'] = rng.random() < 0.3
     if fam == 'P2':
         prog['L'] = rng.choice([1, 2, 4, 6])
-    if fam == 'P5':
+    if fam in ('P5', 'P15'):
         prog['k'] = rng.choice([1, 2, 3])
     if fam == 'P6':
         prog['n2'] = rng.choice([1, 2, 3, 5])
